@@ -76,8 +76,12 @@ def persistent_entropy(
     # Step 2: Persistent entropy computation.
     ps = []
     for dgm in dgms:
-        # (in float: the lengths of uint8 / int8 bars wrap around in their own dtype)
-        l = np.asarray(dgm[:, 1], dtype=float) - np.asarray(dgm[:, 0], dtype=float)
+        # (integer bars in 64-bit integers, exactly: the lengths of uint8 / int8
+        # bars wrap around in their own dtype, and a conversion to float would
+        # round coordinates beyond 2**53)
+        if np.asarray(dgm).dtype.kind in "iub":
+            dgm = np.asarray(dgm).astype(np.int64)
+        l = dgm[:, 1] - dgm[:, 0]
         if all(l > 0):
             L = np.sum(l)
             p = l / L
